@@ -106,7 +106,7 @@ def run(tier, seed, replay=None):
     samples = []
     # (T3) decompiled code = denoted trees
     n = 90 if tier == "quick" else 900
-    cases = harness.gen_cases(seed, 1, n, lambda rng, i: gen.gen_expr_program(rng))
+    cases = harness.gen_cases(seed, 1, n, lambda rng, i: gen.add_feature_tests(rng, gen.gen_expr_program(rng)) if i % 3 == 2 else gen.gen_expr_program(rng))
     for i, (name, prog) in enumerate(cases):
         opts = OPTS[i % len(OPTS)]
         r = harness.compile_cases(build, work, [(name, prog)], extra_args=opts)[0]
@@ -183,7 +183,8 @@ def run(tier, seed, replay=None):
     import json as _json
     fams = [("match", lambda r: gen.gen_match_program(r, size="small")), ("expr", lambda r: gen.gen_expr_program(r)),
             ("classes", lambda r: gen.gen_class_program(r)), ("optional", lambda r: gen.gen_opt_program(r, refs=False)),
-            ("match3", lambda r: gen.gen_match_program(r, npasses=3, size="small"))]
+            ("match3", lambda r: gen.gen_match_program(r, npasses=3, size="small")),
+            ("features", lambda r: gen.add_feature_tests(r, gen.gen_match_program(r, size="small") if r.random() < 0.5 else gen.gen_expr_program(r)))]
     per = 8 if tier == "quick" else 80
     ntext = 40 if tier == "quick" else 120
     for fi, (fname, mk) in enumerate(fams):
@@ -204,7 +205,9 @@ def run(tier, seed, replay=None):
                 texts.append([trng.choice(alpha) for _ in range(trng.randint(3, 8))])
             inv = {v: k for k, v in prog.cmap.items()}
             texts = [t for t in texts[:ntext] if all(g in inv for g in t)]
-            lines = ["font %s/out.ttf" % r["dir"], "ir %s/p.ir.json" % r["dir"]] + (["expand"] if fname == "optional" else []) + ["shape " + " ".join(map(str, t)) for t in texts]
+            fvals = [((i * 7) % 3, (i * 5) % 2) for i in range(len(texts))] if fname == "features" else None
+            lines = ["font %s/out.ttf" % r["dir"], "ir %s/p.ir.json" % r["dir"]] + (["expand"] if fname == "optional" else []) + \
+                [("shapef %d,%d " % fvals[i] if fvals else "shape ") + " ".join(map(str, t)) for i, t in enumerate(texts)]
             outs = common.run_grcv(lines)
             k = 2
             if fname == "optional":
@@ -216,12 +219,13 @@ def run(tier, seed, replay=None):
             if not f.ok():
                 stats["engine_level_font_rejected_by_libgraphite2 (decided under C03)"] += 1
             else:
-                for t, o in zip(texts, outs[k:]):
+                for ti, (t, o) in enumerate(zip(texts, outs[k:])):
                     if o.startswith("stalled"):
                         stats["engine_level_outside_fragment"] += 1
                         continue
                     mine = _json.loads(o)
-                    seg = f.shape([inv[g] for g in t], user_attrs=4)
+                    seg = f.shape([inv[g] for g in t], user_attrs=4,
+                                  feats={gen.FEATZ_IDS[0]: fvals[ti][0], gen.FEATZ_IDS[1]: fvals[ti][1]} if fvals else None)
                     stats["engine_level_texts"] += 1
                     if seg is None:
                         problems.append("text %s: libgraphite2 produces no segment; the rules give %s" % (t, [x[0] for x in mine]))
